@@ -733,3 +733,383 @@ Proof.
 Qed.
 
 End One.
+
+(* ------------------------------------------------------------------ Part 5 *)
+
+Lemma length_upd : forall A (l : list A) k v, length (upd l k v) = length l.
+Proof.
+  induction l as [|x l IH]; intros k v; [reflexivity|].
+  destruct k; cbn [upd length]; [reflexivity|rewrite IH; reflexivity].
+Qed.
+
+Lemma nth_upd_same : forall A (l : list A) k v d, (k < length l)%nat -> nth k (upd l k v) d = v.
+Proof.
+  induction l as [|x l IH]; intros k v d H; cbn [length] in H; [lia|].
+  destruct k; cbn [upd nth]; [reflexivity|apply IH; lia].
+Qed.
+
+Lemma nth_upd_other : forall A (l : list A) k j v d, j <> k -> nth j (upd l k v) d = nth j l d.
+Proof.
+  induction l as [|x l IH]; intros k j v d H; [reflexivity|].
+  destruct k, j; cbn [upd nth]; try reflexivity; [congruence|apply IH; congruence].
+Qed.
+
+Lemma nth_error_upd_same : forall A (l : list A) k v x,
+  nth_error l k = Some x -> nth_error (upd l k v) k = Some v.
+Proof.
+  induction l as [|y l IH]; intros k v x H; destruct k; cbn [nth_error upd] in *;
+    try discriminate; [reflexivity|eapply IH; exact H].
+Qed.
+
+Lemma nth_error_upd_other : forall A (l : list A) k j v,
+  j <> k -> nth_error (upd l k v) j = nth_error l j.
+Proof.
+  induction l as [|y l IH]; intros k j v H; [reflexivity|].
+  destruct k, j; cbn [upd nth_error]; try reflexivity; [congruence|apply IH; congruence].
+Qed.
+
+Lemma get_upd_same : forall st k v, (k < length st)%nat -> get (upd st k v) k = v.
+Proof. intros. unfold get. apply nth_upd_same. assumption. Qed.
+
+Lemma get_upd_other : forall st k j v, j <> k -> get (upd st k v) j = get st j.
+Proof. intros. unfold get. apply nth_upd_other. assumption. Qed.
+
+Lemma length_stream_append : forall ids store n t,
+  length (stream_append store ids n t) = length store.
+Proof.
+  unfold stream_append. induction ids as [|i ids IH]; intros store n t; cbn [fold_left];
+    [reflexivity|]. rewrite IH. apply length_upd.
+Qed.
+
+Lemma stream_append_notin : forall ids store n t k,
+  ~ In k ids -> get (stream_append store ids n t) k = get store k.
+Proof.
+  unfold stream_append. induction ids as [|i ids IH]; intros store n t k H; cbn [fold_left];
+    [reflexivity|].
+  rewrite IH; [|intros Hin; apply H; right; exact Hin].
+  apply get_upd_other. intros E. apply H. left. symmetry. exact E.
+Qed.
+
+Lemma stream_append_in : forall ids store n t k,
+  NoDup ids -> In k ids -> (k < length store)%nat ->
+  get (stream_append store ids n t) k = append n t (get store k).
+Proof.
+  unfold stream_append. induction ids as [|i ids IH]; intros store n t k Hnd Hin Hk;
+    cbn [fold_left]; [destruct Hin|].
+  inversion Hnd as [|? ? Hni Hnd']; subst.
+  destruct Hin as [E|Hin].
+  - subst i. fold (stream_append (upd store k (append n t (get store k))) ids n t).
+    rewrite stream_append_notin; [|exact Hni]. apply get_upd_same. exact Hk.
+  - rewrite IH; [|exact Hnd'|exact Hin|rewrite length_upd; exact Hk].
+    rewrite get_upd_other; [reflexivity|]. intros E. subst i. contradiction.
+Qed.
+
+(* ThrottleStreamIO.wait as a maximum *)
+Lemma fold_wake_ge_acc : forall store now ids acc,
+  acc <= fold_left (fun acc k => let th := get store k in
+                      if truthy_limit th then Qmax acc (wake th now) else acc) ids acc.
+Proof.
+  intros store now. induction ids as [|i ids IH]; intros acc; cbn [fold_left];
+    [apply Qle_refl|].
+  eapply Qle_trans; [|apply IH]. cbv zeta.
+  destruct (truthy_limit (get store i)); [apply Q.le_max_l|apply Qle_refl].
+Qed.
+
+Lemma fold_wake_ge_elem : forall store now ids acc k,
+  In k ids -> truthy_limit (get store k) = true ->
+  wake (get store k) now <=
+  fold_left (fun acc k => let th := get store k in
+               if truthy_limit th then Qmax acc (wake th now) else acc) ids acc.
+Proof.
+  intros store now. induction ids as [|i ids IH]; intros acc k Hin Ht; [destruct Hin|].
+  cbn [fold_left]. destruct Hin as [E|Hin].
+  - subst i. cbv zeta. rewrite Ht. eapply Qle_trans; [|apply fold_wake_ge_acc]. apply Q.le_max_r.
+  - apply IH; assumption.
+Qed.
+
+Lemma fold_wake_attained : forall store now ids acc,
+  let r := fold_left (fun acc k => let th := get store k in
+               if truthy_limit th then Qmax acc (wake th now) else acc) ids acc in
+  r == acc \/ exists k, In k ids /\ truthy_limit (get store k) = true /\ r == wake (get store k) now.
+Proof.
+  intros store now. induction ids as [|i ids IH]; intros acc; cbn [fold_left].
+  - left. reflexivity.
+  - cbv zeta in *. destruct (truthy_limit (get store i)) eqn:Ht.
+    + destruct (IH (Qmax acc (wake (get store i) now))) as [E|[k [Hk [Htk E]]]].
+      * destruct (Q.max_spec acc (wake (get store i) now)) as [[_ Em]|[_ Em]].
+        -- right. exists i. split; [left; reflexivity|]. split; [exact Ht|].
+           rewrite E. exact Em.
+        -- left. rewrite E. exact Em.
+      * right. exists k. split; [right; exact Hk|]. split; assumption.
+    + destruct (IH acc) as [E|[k [Hk [Htk E]]]]; [left; exact E|].
+      right. exists k. split; [right; exact Hk|]. split; assumption.
+Qed.
+
+(* tightest_governs, part (a): the stream continues at the maximum of now and of the individual
+   earliest times of its limited throttles (of that direction) -- never earlier than any of them,
+   and exactly at one of them (or now) *)
+Theorem stream_wake_is_max : forall store ids now,
+  now <= stream_wake store ids now /\
+  (forall k, In k ids -> wake (get store k) now <= stream_wake store ids now) /\
+  (stream_wake store ids now == now \/
+   exists k, In k ids /\ truthy_limit (get store k) = true /\
+             stream_wake store ids now == wake (get store k) now).
+Proof.
+  intros store ids now. unfold stream_wake. split; [apply fold_wake_ge_acc|]. split.
+  - intros k Hin. destruct (truthy_limit (get store k)) eqn:Ht.
+    + apply fold_wake_ge_elem; assumption.
+    + assert (Hoff : positive_limit (get store k) = None).
+      { destruct (positive_limit (get store k)) eqn:Hp; [|reflexivity].
+        rewrite (positive_truthy _ _ Hp) in Ht. discriminate. }
+      rewrite (wake_off _ _ Hoff). apply fold_wake_ge_acc.
+  - apply fold_wake_attained.
+Qed.
+
+(* off_is_free for a stream: no throttle of THIS direction has a positive limit (None, 0, or limits
+   only on the opposite direction's objects) -> the stream continues at `now`, syntactically *)
+Theorem stream_wake_off : forall store ids now,
+  (forall k, In k ids -> positive_limit (get store k) = None) ->
+  stream_wake store ids now = now.
+Proof.
+  intros store ids now. unfold stream_wake.
+  induction ids as [|i ids IH]; intros H; cbn [fold_left]; [reflexivity|].
+  cbv zeta. rewrite (wake_off _ _ (H i (or_introl eq_refl))).
+  assert (E : Qmax now now = now).
+  { unfold Qmax, GenericMinMax.gmax. destruct (now ?= now); reflexivity. }
+  destruct (truthy_limit (get store i)); [rewrite E|];
+    apply IH; intros k Hk; apply H; right; exact Hk.
+Qed.
+
+(* --- every throttle k of the system sees a single-throttle run (Part 3) *)
+
+Definition admin_free (k : nat) (e : event) : Prop :=
+  match e with SetLimit k' _ => k' <> k | CloneAll => False | _ => True end.
+
+(* distinct objects under the keys of one dict (what the wiring facts establish) *)
+Definition wired (actors : list actor) : Prop := Forall (fun ac => NoDup (ids_of ac)) actors.
+
+Definition participates (actors : list actor) (k a : nat) : Prop :=
+  exists ac, nth_error actors a = Some ac /\ In k (ids_of ac).
+
+Lemma participates_dec : forall actors k a,
+  {participates actors k a} + {~ participates actors k a}.
+Proof.
+  intros actors k a. unfold participates. destruct (nth_error actors a) as [ac|].
+  - destruct (in_dec Nat.eq_dec k (ids_of ac)) as [Hin|Hni].
+    + left. exists ac. split; [reflexivity|exact Hin].
+    + right. intros [ac' [E H]]. inversion E; subst. contradiction.
+  - right. intros [ac' [E _]]. discriminate.
+Qed.
+
+Record rel (actors : list actor) (k : nat) (st : sys) (g : gst) : Prop := mkRel {
+  r_len : (k < length (s_store st))%nat;
+  r_th : g_th g = get (s_store st) k;
+  r_clock : g_clock g <= s_clock st;
+  r_stat : forall a, participates actors k a -> nth_error (s_stat st) a = Some (g_stat g a) }.
+
+Lemma sim_eval_in : forall actors k st g a t st',
+  rel actors k st g -> step actors st (Eval a t) = Some st' -> participates actors k a ->
+  exists w g', gstep g (E1 a t w) = Some g' /\ rel actors k st' g'.
+Proof.
+  intros actors k st g a t st' [Rl Rt Rc Rs] Hstep Hpart.
+  pose proof (Rs a Hpart) as Hsa. destruct Hpart as [ac [Hac Hin]].
+  cbn [step] in Hstep. rewrite Hac, Hsa in Hstep.
+  destruct (g_stat g a) eqn:Hg; try discriminate.
+  destruct (Qle_bool (s_clock st) t) eqn:Hck; [|discriminate].
+  inversion Hstep; subst st'; clear Hstep.
+  apply Qle_bool_iff in Hck.
+  exists (stream_wake (s_store st) (ids_of ac) t). eexists. split.
+  - cbn [gstep]. rewrite Hg.
+    assert (G1 : Qle_bool (g_clock g) t = true) by (apply Qle_bool_iff; lra).
+    assert (G2 : Qle_bool (wake (g_th g) t) (stream_wake (s_store st) (ids_of ac) t) = true).
+    { apply Qle_bool_iff. rewrite Rt.
+      apply (proj1 (proj2 (stream_wake_is_max (s_store st) (ids_of ac) t))). exact Hin. }
+    rewrite G1, G2. reflexivity.
+  - constructor; cbn [s_store s_stat s_clock g_th g_clock g_stat]; try assumption.
+    + apply Qle_refl.
+    + intros b Hb. unfold updf. destruct (Nat.eqb b a) eqn:Eb.
+      * apply Nat.eqb_eq in Eb. subst b. eapply nth_error_upd_same. exact Hsa.
+      * apply Nat.eqb_neq in Eb. rewrite nth_error_upd_other; [|exact Eb]. apply Rs. exact Hb.
+Qed.
+
+Lemma sim_start_in : forall actors k st g a t st',
+  rel actors k st g -> step actors st (Start a t) = Some st' -> participates actors k a ->
+  exists g', gstep g (S1 a t) = Some g' /\ rel actors k st' g'.
+Proof.
+  intros actors k st g a t st' [Rl Rt Rc Rs] Hstep Hpart.
+  pose proof (Rs a Hpart) as Hsa.
+  cbn [step] in Hstep. rewrite Hsa in Hstep.
+  destruct (g_stat g a) as [|w|] eqn:Hg; try discriminate.
+  destruct (Qle_bool (s_clock st) t && Qle_bool w t) eqn:Hck; [|discriminate].
+  inversion Hstep; subst st'; clear Hstep.
+  apply andb_true_iff in Hck. destruct Hck as [Hck Hw]. apply Qle_bool_iff in Hck.
+  eexists. split.
+  - cbn [gstep]. rewrite Hg.
+    assert (G1 : Qle_bool (g_clock g) t = true) by (apply Qle_bool_iff; lra).
+    rewrite G1, Hw. reflexivity.
+  - constructor; cbn [s_store s_stat s_clock g_th g_clock g_stat]; try assumption.
+    + apply Qle_refl.
+    + intros b Hb. unfold updf. destruct (Nat.eqb b a) eqn:Eb.
+      * apply Nat.eqb_eq in Eb. subst b. eapply nth_error_upd_same. exact Hsa.
+      * apply Nat.eqb_neq in Eb. rewrite nth_error_upd_other; [|exact Eb]. apply Rs. exact Hb.
+Qed.
+
+Lemma sim_done_in : forall actors k st g a t n st',
+  wired actors ->
+  rel actors k st g -> step actors st (Done a t n) = Some st' -> participates actors k a ->
+  exists g', gstep g (D1 a t n) = Some g' /\ rel actors k st' g'.
+Proof.
+  intros actors k st g a t n st' Hwired [Rl Rt Rc Rs] Hstep Hpart.
+  pose proof (Rs a Hpart) as Hsa. destruct Hpart as [ac [Hac Hin]].
+  cbn [step] in Hstep. rewrite Hac, Hsa in Hstep.
+  destruct (g_stat g a) as [| |ts] eqn:Hg; try discriminate.
+  destruct (Qle_bool (s_clock st) t && (0 <=? n)%Z) eqn:Hck; [|discriminate].
+  inversion Hstep; subst st'; clear Hstep.
+  apply andb_true_iff in Hck. destruct Hck as [Hck Hn]. apply Qle_bool_iff in Hck.
+  assert (Hnd : NoDup (ids_of ac)).
+  { unfold wired in Hwired. rewrite Forall_forall in Hwired. apply Hwired.
+    eapply nth_error_In. exact Hac. }
+  eexists. split.
+  - cbn [gstep]. rewrite Hg.
+    assert (G1 : Qle_bool (g_clock g) t = true) by (apply Qle_bool_iff; lra).
+    rewrite G1, Hn. reflexivity.
+  - constructor; cbn [s_store s_stat s_clock g_th g_clock g_stat].
+    + rewrite length_stream_append. exact Rl.
+    + rewrite stream_append_in; [|exact Hnd|exact Hin|exact Rl]. rewrite Rt. reflexivity.
+    + apply Qle_refl.
+    + intros b Hb. unfold updf. destruct (Nat.eqb b a) eqn:Eb.
+      * apply Nat.eqb_eq in Eb. subst b. eapply nth_error_upd_same. exact Hsa.
+      * apply Nat.eqb_neq in Eb. rewrite nth_error_upd_other; [|exact Eb]. apply Rs. exact Hb.
+Qed.
+
+Definition ev_actor (e : event) : option nat :=
+  match e with Eval a _ => Some a | Start a _ => Some a | Done a _ _ => Some a | _ => None end.
+
+Lemma step_clock_mono : forall actors st e st', step actors st e = Some st' -> s_clock st <= s_clock st'.
+Proof.
+  intros actors st e st' H. destruct e as [a t|a t|a t n|k v|]; cbn [step] in H.
+  - destruct (nth_error actors a); [|discriminate].
+    destruct (nth_error (s_stat st) a) as [[| |]|]; try discriminate.
+    destruct (Qle_bool (s_clock st) t) eqn:E; [|discriminate].
+    inversion H. cbn [s_clock]. apply Qle_bool_iff. exact E.
+  - destruct (nth_error (s_stat st) a) as [[| |]|]; try discriminate.
+    destruct (Qle_bool (s_clock st) t) eqn:E; [|discriminate].
+    destruct (Qle_bool w t); [|discriminate].
+    inversion H. cbn [s_clock]. apply Qle_bool_iff. exact E.
+  - destruct (nth_error actors a); [|discriminate].
+    destruct (nth_error (s_stat st) a) as [[| |]|]; try discriminate.
+    destruct (Qle_bool (s_clock st) t) eqn:E; [|discriminate].
+    destruct (0 <=? n)%Z; [|discriminate].
+    inversion H. cbn [s_clock]. apply Qle_bool_iff. exact E.
+  - inversion H. apply Qle_refl.
+  - destruct (forallb is_idle (s_stat st)); [|discriminate]. inversion H. apply Qle_refl.
+Qed.
+
+(* an event of a non-participating actor, or an admin event on another object, is invisible *)
+Lemma sim_other : forall actors k st g e st',
+  rel actors k st g -> step actors st e = Some st' -> admin_free k e ->
+  (forall a, ev_actor e = Some a -> ~ participates actors k a) ->
+  rel actors k st' g.
+Proof.
+  intros actors k st g e st' R Hstep Hadm Hnp.
+  pose proof (step_clock_mono _ _ _ _ Hstep) as Hmono.
+  destruct R as [Rl Rt Rc Rs].
+  assert (Hstat : forall a v, ev_actor e = Some a ->
+            forall b, participates actors k b ->
+            nth_error (upd (s_stat st) a v) b = Some (g_stat g b)).
+  { intros a v Ha b Hb. rewrite nth_error_upd_other; [apply Rs; exact Hb|].
+    intros E. subst b. exact (Hnp a Ha Hb). }
+  destruct e as [a t|a t|a t n|k' v|]; cbn [step] in Hstep.
+  - destruct (nth_error actors a); [|discriminate].
+    destruct (nth_error (s_stat st) a) as [[| |]|]; try discriminate.
+    destruct (Qle_bool (s_clock st) t); [|discriminate].
+    inversion Hstep; subst st'. cbn [s_clock] in Hmono.
+    constructor; cbn [s_store s_stat s_clock]; try assumption; [lra|].
+    apply Hstat. reflexivity.
+  - destruct (nth_error (s_stat st) a) as [[| |]|]; try discriminate.
+    destruct (_ && _); [|discriminate].
+    inversion Hstep; subst st'. cbn [s_clock] in Hmono.
+    constructor; cbn [s_store s_stat s_clock]; try assumption; [lra|].
+    apply Hstat. reflexivity.
+  - destruct (nth_error actors a) as [ac|] eqn:Hac; [|discriminate].
+    destruct (nth_error (s_stat st) a) as [[| |]|]; try discriminate.
+    destruct (_ && _); [|discriminate].
+    inversion Hstep; subst st'. cbn [s_clock] in Hmono.
+    assert (Hni : ~ In k (ids_of ac)).
+    { intros Hin. apply (Hnp a eq_refl). exists ac. split; assumption. }
+    constructor; cbn [s_store s_stat s_clock].
+    + rewrite length_stream_append. exact Rl.
+    + rewrite stream_append_notin; assumption.
+    + lra.
+    + apply Hstat. reflexivity.
+  - inversion Hstep; subst st'. cbn [admin_free] in Hadm.
+    constructor; cbn [s_store s_stat s_clock]; try assumption.
+    + rewrite length_upd. exact Rl.
+    + rewrite get_upd_other; [exact Rt|]. congruence.
+  - destruct Hadm.
+Qed.
+
+Lemma sim_step : forall actors k st g e st',
+  wired actors -> rel actors k st g -> step actors st e = Some st' -> admin_free k e ->
+  exists tr1 g', grun g tr1 = Some g' /\ rel actors k st' g'.
+Proof.
+  intros actors k st g e st' Hw R Hstep Hadm.
+  destruct (ev_actor e) as [a|] eqn:Ha.
+  - destruct (participates_dec actors k a) as [Hp|Hnp].
+    + destruct e as [a' t|a' t|a' t n|k' v|]; cbn [ev_actor] in Ha; inversion Ha; subst a'.
+      * destruct (sim_eval_in _ _ _ _ _ _ _ R Hstep Hp) as [w [g' [G R']]].
+        exists [E1 a t w], g'. cbn [grun]. rewrite G. split; [reflexivity|exact R'].
+      * destruct (sim_start_in _ _ _ _ _ _ _ R Hstep Hp) as [g' [G R']].
+        exists [S1 a t], g'. cbn [grun]. rewrite G. split; [reflexivity|exact R'].
+      * destruct (sim_done_in _ _ _ _ _ _ _ _ Hw R Hstep Hp) as [g' [G R']].
+        exists [D1 a t n], g'. cbn [grun]. rewrite G. split; [reflexivity|exact R'].
+    + exists [], g. split; [reflexivity|].
+      eapply sim_other; try eassumption. intros b Hb. rewrite Ha in Hb. inversion Hb; subst.
+      exact Hnp.
+  - exists [], g. split; [reflexivity|].
+    eapply sim_other; try eassumption. intros b Hb. rewrite Ha in Hb. discriminate.
+Qed.
+
+Lemma run_app : forall actors tr1 tr2 st,
+  run actors st (tr1 ++ tr2) =
+  match run actors st tr1 with Some st' => run actors st' tr2 | None => None end.
+Proof.
+  intros actors. induction tr1 as [|e tr1 IH]; intros tr2 st; cbn [run app]; [reflexivity|].
+  destruct (step actors st e); [apply IH|reflexivity].
+Qed.
+
+Lemma sim_run : forall actors k tr st g st',
+  wired actors -> rel actors k st g -> run actors st tr = Some st' ->
+  Forall (admin_free k) tr ->
+  exists tr1 g', grun g tr1 = Some g' /\ rel actors k st' g'.
+Proof.
+  intros actors k. induction tr as [|e tr IH]; intros st g st' Hw R Hrun Hadm; cbn [run] in Hrun.
+  - inversion Hrun; subst. exists [], g. split; [reflexivity|exact R].
+  - destruct (step actors st e) as [st1|] eqn:E; [|discriminate].
+    inversion Hadm as [|? ? Ha Hadm']; subst.
+    destruct (sim_step _ _ _ _ _ _ Hw R E Ha) as [tr1 [g1 [G1 R1]]].
+    destruct (IH st1 g1 st' Hw R1 Hrun Hadm') as [tr2 [g2 [G2 R2]]].
+    exists (tr1 ++ tr2), g2. rewrite grun_app, G1. split; assumption.
+Qed.
+
+Lemma rel_init : forall actors k store c,
+  (k < length store)%nat ->
+  rel actors k (init_sys store actors c) (ginit (get store k) c).
+Proof.
+  intros actors k store c Hk. constructor; cbn [init_sys ginit s_store s_stat s_clock g_th g_clock g_stat].
+  - exact Hk.
+  - reflexivity.
+  - apply Qle_refl.
+  - intros a [ac [Hac _]]. rewrite nth_error_map, Hac. reflexivity.
+Qed.
+
+(* every throttle of the system, as long as nobody re-assigns its limit, behaves as in Part 3 *)
+Theorem sys_projects : forall actors store c tr st' k,
+  wired actors -> (k < length store)%nat ->
+  run actors (init_sys store actors c) tr = Some st' ->
+  Forall (admin_free k) tr ->
+  exists tr1 g, grun (ginit (get store k) c) tr1 = Some g /\ rel actors k st' g.
+Proof.
+  intros actors store c tr st' k Hw Hk Hrun Hadm.
+  eapply sim_run; try eassumption. apply rel_init. exact Hk.
+Qed.
